@@ -26,7 +26,7 @@ RULE = ("rle leg: rlencode(a, chunksize=c) for EVERY array over {0,1,2} of lengt
         "reference state (dict-sum merge, block-aggregate coarsening); big leg (thorough): three dense-upper coolers with 1450 bins "
         "(1,051,975 pixels) whose row runs straddle / start at / end at pixel row 1,000,000. Non-trivial: the transition writes a "
         "collection with >=2 pixels. Distinct by construction (state dedup by canonical reference state).")
-BOUNDS = {"quick": "hist depth 2; one 6000-contig table (integer chromosome column) through each of 7 producing routes", "thorough": "hist depth 3 + the three 1e6-row boundary coolers + the 6000-contig table"}
+BOUNDS = {"quick": "hist depth 2; one 6000-contig table (integer chromosome column) through each of 7 producing routes; coarsen and zoomify with nproc=2 under every completion order of each pool batch (deviation bound 1)", "thorough": "hist depth 3 + the three 1e6-row boundary coolers + the 6000-contig table; pool orders with deviation bound 2"}
 ASSUMPTIONS = ["V is written against docs/schema_v3.rst with raw h5py only", "two files with the same reference state have the same futures under the alphabet"]
 EXPECT_CLASSES = {"*": ["manycontigs:integer-chromosome-column", "rle", "index", "op:create", "op:create-unordered", "op:merge", "op:coarsen", "op:zoomify", "op:scool", "op:load", "op:cload"]}
 
@@ -65,6 +65,9 @@ def units(tier):
         yield {"leg": "seqtables", "perm": perm}
     for route in ("ordered", "unordered", "merge", "coarsen", "zoomify", "scool", "load"):
         yield {"leg": "manycontigs", "route": route}
+    for op in ("coarsen", "zoomify"):
+        for cs in (1, 2, 5):
+            yield {"leg": "pool-order", "op": op, "chunksize": cs}
     if tier == "thorough":
         for k in range(3):
             yield {"leg": "big", "k": k}
@@ -451,6 +454,65 @@ def _big(R, k, only):
         scratch.rm(p)
 
 
+def _pool_order(R, unit, tier, only):
+    """E3: coarsen / zoomify with nproc=2 under the virtual pool; at every pool call of a run every completion order of the
+    submitted batch is an alternative (deviation bound 1, thorough 2). The schema must hold for every collection written under
+    every schedule explored."""
+    import cooler
+    from cooler import fileops
+    from vmc.seams import sched
+    bound = 2 if tier == "thorough" else 1
+    op, cs = unit["op"], unit["chunksize"]
+    bins = alpha.table_bins(((1, 1, 1, 1), (1, 1)), "chr")
+    n = len(bins)
+    pix = fx.pixvals(alpha.cells(n, True), n)
+    src = fx.make(("c02-pool", 0), bins, pix)
+    R.add("states")
+    R.add("traces")
+
+    def run(ch):
+        mon = sched.Monitor()
+        vl, restore = sched.patch_reduce(mon, ch)
+        out = scratch.fresh()
+        err = None
+        try:
+            if op == "coarsen":
+                cooler.coarsen_cooler(src, out, 2, chunksize=cs, nproc=2)
+            else:
+                cooler.zoomify_cooler(src, out, [2, 4], chunksize=cs, nproc=2)
+        except sched.Deadlock:
+            err = "deadlock"
+        except Exception as e:
+            err = f"{type(e).__name__}: {e!s:.200}"
+        finally:
+            restore()
+        return out, err
+
+    kk = 0
+    for ch, (out, err) in sched.explore(run, bound):
+        kk += 1
+        choices = [c for (_, c, _) in ch.trace]
+        inner = {"choices": choices}
+        try:
+            if only is not None and only != inner:
+                continue
+            R.order = (R.order[0], kk)
+            R.ev(1, 1 if any(choices) else 0)
+            R.add("transitions")
+            R.add("schedules")
+            R.cls("pool-order:" + op)
+            if err:
+                R.mismatch("pool-order:raises", inner, err)
+                continue
+            for g in (["/"] if op == "coarsen" else fileops.list_coolers(out)):
+                v = h5ref.validate(out, g)
+                if v:
+                    R.mismatch("V:" + v[0], {**inner, "group": g}, f"{v[:3]}")
+            R.outcome((op, cs, len(choices)))
+        finally:
+            scratch.rm(out)
+
+
 def _manycontigs(R, route, only):
     """6000 one- and two-bin contigs with 23-character names: too many for an HDF5 enum header, so the LIBRARY stores bins/chrom as
     plain integers (enum_path attribute) - the other side of a size threshold no small table reaches. Every producing route must still
@@ -562,6 +624,8 @@ def run(unit, R, tier, only=None):
         _big(R, unit["k"], only)
     elif leg == "manycontigs":
         _manycontigs(R, unit["route"], only)
+    elif leg == "pool-order":
+        _pool_order(R, unit, tier, only)
     elif leg == "seqtables":
         _seqtables(R, unit["perm"], only)
     else:
